@@ -65,6 +65,8 @@ Clauses == <<
   <<"C17j", "C17", "tr">>, <<"C17k", "C17", "tr">>, <<"C17l", "C17", "tr">>,
   <<"C18a", "C18", "end">>, <<"C18b", "C18", "end">>, <<"C18c", "C18", "end">>,
   <<"C18d", "C18", "end">>, <<"C18e", "C18", "end">>,
+  <<"C19a", "C19", "big">>, <<"C19b", "C19", "big">>, <<"C19c", "C19", "big">>,
+  <<"C19d", "C19", "big">>,
   <<"C20a", "C20", "tr">>, <<"C20b", "C20", "tr">>,
   <<"S01", "S", "tr">>, <<"S02", "S", "tr">>, <<"S03", "S", "end">>, <<"S04", "S", "tr">>,
   <<"H01", "H", "st">>, <<"H02", "H", "tr">> >>
@@ -232,6 +234,12 @@ Results(r) ==
                 prevE == IF cx.c.prev # 0 THEN Rec[cx.c.prev] ELSE r
                 prevS == Norm(Rec[prevE.st])
             IN [n \in Selected("end") |-> EvalEnd(n, r, s, twinE, twinS, prevE, prevS)]
+  ELSE IF r.t = "big"
+       THEN LET b1 == Rec[l - (r.pos - 1)]
+                b2 == IF r.pos >= 2 THEN Rec[l - (r.pos - 2)] ELSE r
+            IN [n \in Selected("big") |->
+                  CASE n = "C19a" -> C19a(r) [] n = "C19b" -> C19b(r, b1, b2)
+                    [] n = "C19c" -> C19c(r) [] n = "C19d" -> C19d(r)]
   ELSE <<>>
 
 Init == /\ l = 1
@@ -245,7 +253,7 @@ Next ==
   /\ LET r == Rec[l] IN
      /\ cx' = IF r.t = "ctx" THEN Derive(r) ELSE cx
      /\ IF r.t = "ctx"
-        THEN viol' = viol /\ cov' = cov
+        THEN viol' = viol /\ cov' = cov  \* (a "big" line keeps the current context)
         ELSE LET res == Results(r)
                  bad == {n \in DOMAIN res : res[n] = "bad"}
              IN /\ viol' = IF bad = {} \/ Len(viol) >= MaxViol THEN viol
